@@ -180,7 +180,7 @@ def mirror(prop, r):
 
 FAMILIES = {
     # family: (MaxRank quick, MaxRank thorough, kinds)
-    "single": (2, 2, ["rr"]), "empty": (2, 2, ["rr"]), "mixorder": (2, 2, ["rr"]), "realinto": (2, 2, ["rc"]), "special": (2, 2, ["rr"]), "extend": (2, 2, ["rr"]), "helper": (3, 3, ["rr"]), "argsweep": (2, 2, ["rr"]), "index": (2, 3, ["rr"]), "kink": (2, 2, ["rr"]), "linalg": (3, 3, ["rr"]), "fft": (3, 3, ["rr"]), "join": (3, 3, ["rr"]), "contract": (3, 3, ["rr"]), "rearr": (3, 3, ["rr"]), "binary": (3, 4, ["rr"]), "where": (2, 2, ["rr"]), "reduce": (3, 4, ["rr"]), "cum": (3, 3, ["rr"]), "unary": (2, 2, ["rr"]),
+    "single": (2, 2, ["rr"]), "empty": (2, 2, ["rr"]), "mixorder": (2, 2, ["rr"]), "realinto": (2, 2, ["rc"]), "special": (2, 2, ["rr"]), "extend": (2, 2, ["rr"]), "helper": (3, 3, ["rr"]), "argsweep": (2, 2, ["rr"]), "index": (2, 3, ["rr"]), "kink": (2, 2, ["rr"]), "linalg": (3, 3, ["rr"]), "fft": (3, 3, ["rr"]), "join": (3, 3, ["rr"]), "contract": (3, 3, ["rr"]), "rearr": (3, 3, ["rr"]), "binary": (3, 4, ["rr"]), "where": (2, 2, ["rr"]), "reduce": (3, 4, ["rr"]), "cum": (3, 3, ["rr"]), "unary": (2, 2, ["rr"]), "scipy": (2, 3, ["rr"]),
 }
 COMPLEX_FAMILIES = {"single": (2, 2, ["cc", "cr", "rc"]), "realinto": (2, 2, ["rc"]), "linalg": (2, 3, ["cc"]), "fft": (3, 3, ["rr", "cc"]), "contract": (2, 3, ["cc", "cr", "rc"]), "binary": (2, 3, ["cc", "cr", "rc"]), "reduce": (2, 3, ["cc"]), "unary": (2, 2, ["cc"])}
 
@@ -211,7 +211,12 @@ def run_rules(pid, tier, seed, fams, per_family_quick, level_rule, assumptions, 
         c["id"] = i + 1
         if pid == "C07":
             c["second"] = True
-    obs, files = vlib.parallel_replay("rule_replay.py", cfgs, nproc=15, tag="rules")
+    sci_cfgs = [c for c in cfgs if c["fam"] == "scipy"]
+    obs, files = vlib.parallel_replay("rule_replay.py", [c for c in cfgs if c["fam"] != "scipy"], nproc=15, tag="rules")
+    if sci_cfgs:
+        # the SciPy wrappers run under the tooling interpreter (the repository's own has no SciPy); autograd is still /repo's working tree
+        obs2, files2 = vlib.parallel_replay("rule_replay.py", sci_cfgs, nproc=15, tag="rules-scipy", py=vlib.PY_SCIPY)
+        obs, files = obs + obs2, files + files2
     harness_errors = [o for o in obs if o["status"].startswith("harness_error")]
     if harness_errors:
         raise vlib.MachineryError("harness error in %d observations, first: %s" % (len(harness_errors), harness_errors[0]["status"]))
@@ -294,7 +299,7 @@ ASSUME = [
     "plain NumPy (the function itself, through the no-box branch of the primitive wrapper) is the oracle for primal values; its Jacobian is obtained "
     "by exact differences for affine maps and by a 4th-order central stencil (two step sizes must agree to 1e-8) otherwise",
     "agreement is decided on integers D = round(diff / max(1,|W|) * 2^20): numeric accuracy beyond ~5e-7 relative is not claimed (C04: 1e-11, oracle-free)",
-    "ranks <= 3 (thorough: 4), dimensions in {1,2,3}; float64 / complex128 data at generic points; scipy wrappers are not importable here",
+    "ranks <= 3 (thorough: 4), dimensions in {1,2,3}; float64 / complex128 data at generic points; the SciPy wrappers (special, stats, linalg, signal; not integrate.odeint) run under the tooling interpreter (numpy 2.4, scipy 1.17) because the repository's own interpreter has no SciPy",
 ]
 RULE = ("one case = one call configuration enumerated by TLC from RuleSpace.tla (primitive x call form x shapes/broadcast pattern x axis x keepdims x "
         "ddof x argnum x scalar form x real/complex kind); quick = stratified sample hitting every stratum (prim, form, argnum, kind, axis kind/sign, "
@@ -433,7 +438,7 @@ def c19_history(verdict, tier, seed):
     cfgs = []
     st = tr = 0
     for fam, (rq, rt, kinds) in FAMILIES.items():
-        if fam in ("kink", "single"):
+        if fam in ("kink", "single", "scipy"):
             continue
         allc, r = enumerate_family(fam, rq, kinds)
         st += r.distinct
